@@ -9,7 +9,7 @@
 //
 // usage: c38_cache bfs <depth> <nthreads> [cap_states]
 //        c38_cache replay <history>                       history = ops joined by '.'
-//        c38_cache explore <max_preemptions> <max_exec_per_scenario> <scenario>...      (C38_SCHED)
+//        c38_cache explore <max_preemptions> <max_exec> <shard> <nshards> <scenario>    (C38_SCHED)
 //        c38_cache replaysched <scenario> <schedule>                                    (C38_SCHED)
 //        c38_cache free <repeats> <scenario>...                                         (C38_TSAN)
 // operations:
@@ -38,6 +38,7 @@
 #include <sstream>
 #include <string>
 #include <thread>
+#include <tuple>
 #include <unordered_map>
 #include <unordered_set>
 #include <utility>
@@ -60,7 +61,7 @@
 #undef mutex
 #undef condition_variable
 #include "vsched/vsched.h"
-#endif
+#endif  // C38_SCHED (prelude macros removed)
 
 #if defined(C38_TSAN)
 // the companion links user_cache.cc only; this is the (5-line) function of user_resource.cc it needs
@@ -70,7 +71,7 @@ extern "C" int mju_isModifiedResource(const mjResource* resource, const char* ti
   }
   return 1;
 }
-#endif
+#endif  // C38_TSAN (resource stub)
 
 namespace {
 
@@ -308,8 +309,9 @@ struct Ref {
         break;
       }
       case REMOVEMODEL:
+        // every stored asset has >= 1 reference, so an asset that does not reference the model keeps a non-empty set
         for (auto it = a.begin(); it != a.end();) {
-          it->second.refs.erase(o.m) ;
+          it->second.refs.erase(o.m);
           if (it->second.refs.empty()) it = a.erase(it); else ++it;
         }
         break;
@@ -338,18 +340,11 @@ struct Ref {
   }
 };
 
-// RemoveModel of the reference must not delete assets that were never referenced by the model: refs.erase on a set that does
-// not contain m leaves it non-empty (every stored asset has >= 1 reference), so the loop above is exact.
-
 // ------------------------------------------------------------------------------------------------ snapshots
 struct SnapAsset {
   bool present = false;
   int ts = -1, size = 0, token = -1, refs = 0 /*bitmask*/, insrank = -1;
   long access = 0;
-  bool operator==(const SnapAsset& o) const {
-    return present == o.present && (!present || (ts == o.ts && size == o.size && token == o.token && refs == o.refs &&
-                                                 insrank == o.insrank && access == o.access));
-  }
 };
 struct Snap {
   long cap = 0, size = 0;
@@ -405,38 +400,37 @@ const char* snap_real(mjCCache& c, Snap* out) {
     live.insert(&kv.second);
     SnapAsset& x = s.a[id];
     x.present = true;
-    x.ts = kv.second.Timestamp() == kTs[0] ? 0 : kv.second.Timestamp() == kTs[1] ? 1 : -1;
+    x.ts = kv.second.Timestamp() == kTs[0] ? 0 : kv.second.Timestamp() == kTs[1] ? 1 : 3;
     x.size = (int)kv.second.BytesCount();
     x.token = kv.second.Data() ? *static_cast<const int*>(kv.second.Data()) : -2;
     x.access = (long)kv.second.AccessCount();
     for (auto& m : kv.second.References()) { int mi = model_of(m); if (mi < 0) return "unknown model in references"; x.refs |= 1 << mi; }
-    if (!x.refs) return "held asset without any model reference";
     sum += x.size;
     byins.push_back({kv.second.InsertNum(), id});
   }
   std::sort(byins.begin(), byins.end());
-  for (size_t k = 0; k < byins.size(); k++) {
-    if (k && byins[k].first == byins[k - 1].first) return "two held assets share an insertion number";
-    s.a[byins[k].second].insrank = (int)k;
-  }
-  if (sum != s.size) { *out = s; return "Size() differs from the sum of the sizes of the held assets"; }
-  if (s.size > s.cap) { *out = s; return "Size() exceeds Capacity()"; }
+  for (size_t k = 0; k < byins.size(); k++) s.a[byins[k].second].insrank = (int)k;
+  *out = s;
+  for (size_t k = 1; k < byins.size(); k++) if (byins[k].first == byins[k - 1].first) return "two held assets share an insertion number";
+  for (int id = 0; id < kIds; id++) if (s.a[id].present && !s.a[id].refs) return "held asset without any model reference";
+  if (sum != s.size) return "Size() differs from the sum of the sizes of the held assets";
+  if (s.size > s.cap) return "Size() exceeds Capacity()";
   // priority queue: same elements as lookup_, iteration order is the eviction order
-  if (c.entries_.size() != c.lookup_.size()) { *out = s; return "priority queue and lookup table hold different numbers of assets"; }
+  if (c.entries_.size() != c.lookup_.size()) return "priority queue and lookup table hold different numbers of assets";
   const mjCAsset* prev = nullptr;
   for (mjCAsset* p : c.entries_) {
-    if (!live.count(p)) { *out = s; return "priority queue holds a pointer to an asset that is not in the lookup table"; }
-    if (prev && !mjCAssetCompare()(prev, p)) { *out = s; return "priority queue is not ordered by (access count, insertion number)"; }
+    if (!live.count(p)) return "priority queue holds a pointer to an asset that is not in the lookup table";
+    if (prev && !mjCAssetCompare()(prev, p)) return "priority queue is not ordered by (access count, insertion number)";
     prev = p;
-    s.evict.push_back(id_of(p->Id()));
+    out->evict.push_back(id_of(p->Id()));
   }
   // per-model index: exactly the assets that reference the model (empty sets are equivalent to missing keys)
   for (auto& kv : c.models_) {
     int mi = model_of(kv.first);
-    if (mi < 0) { if (!kv.second.empty()) { *out = s; return "model index has an unknown model"; } continue; }
+    if (mi < 0) { if (!kv.second.empty()) return "model index has an unknown model"; continue; }
     for (mjCAsset* p : kv.second) {
-      if (!live.count(p)) { *out = s; return "model index holds a pointer to an asset that is not in the lookup table (dangling)"; }
-      if (!(s.a[id_of(p->Id())].refs & (1 << mi))) { *out = s; return "model index lists an asset that does not reference the model"; }
+      if (!live.count(p)) return "model index holds a pointer to an asset that is not in the lookup table (dangling)";
+      if (!(s.a[id_of(p->Id())].refs & (1 << mi))) return "model index lists an asset that does not reference the model";
     }
   }
   for (int id = 0; id < kIds; id++) {
@@ -446,10 +440,9 @@ const char* snap_real(mjCCache& c, Snap* out) {
       auto it = c.models_.find(kModelName[mi]);
       bool found = false;
       if (it != c.models_.end()) for (mjCAsset* p : it->second) if (live.count(p) && id_of(p->Id()) == id) found = true;
-      if (!found) { *out = s; return "asset references a model whose index does not list it"; }
+      if (!found) return "asset references a model whose index does not list it";
     }
   }
-  *out = s;
   return nullptr;
 }
 
@@ -457,7 +450,8 @@ const char* snap_real(mjCCache& c, Snap* out) {
 const char* snap_diff(const Snap& real, const Snap& ref) {
   if (real.cap != ref.cap) return "Capacity() differs from the model";
   for (int i = 0; i < kIds; i++) {
-    if (real.a[i].present != ref.a[i].present) return real.a[i].present ? "asset is held although the model dropped it" : "asset is missing although the model holds it";
+    if (real.a[i].present != ref.a[i].present)
+      return real.a[i].present ? "asset is held although the model dropped it" : "asset is missing although the model holds it";
   }
   for (int i = 0; i < kIds; i++) {
     if (!real.a[i].present) continue;
@@ -479,8 +473,10 @@ uint64_t canon(const Snap& s) {
   for (int i = 0; i < kIds; i++) {
     uint64_t f = 0;
     const SnapAsset& x = s.a[i];
-    if (x.present) f = 1 | ((uint64_t)x.ts << 1) | ((uint64_t)x.size << 2) | ((uint64_t)x.refs << 4) | ((uint64_t)x.insrank << 6) | ((uint64_t)x.access << 8);
-    v = (v << 16) | f;   // access < 256
+    if (x.present)
+      f = 1 | ((uint64_t)(x.ts & 1) << 1) | ((uint64_t)(x.size & 3) << 2) | ((uint64_t)(x.refs & 3) << 4) | ((uint64_t)(x.insrank & 3) << 6) |
+          ((uint64_t)(x.access & 255) << 8);   // access <= depth <= 8
+    v = (v << 16) | f;
   }
   return v;
 }
@@ -490,14 +486,13 @@ uint64_t canon(const Snap& s) {
 struct StepResult {
   const char* rule = nullptr;   // violated rule (nullptr: ok)
   std::string detail;
-  Snap real;
   uint64_t key = 0;
   std::string outcome;
   bool changed = false;
   bool open_case = false;
 };
 
-// replay `hist` + `op` on a fresh cache and a fresh model; judge the LAST operation (the prefix was judged before)
+// replay the history on a fresh cache and a fresh model; judge the LAST operation (prefixes were judged as shorter histories)
 StepResult run_history(const std::vector<Op>& ops, bool verbose) {
   StepResult out;
   mjCCache cache(5);
@@ -506,20 +501,19 @@ StepResult run_history(const std::vector<Op>& ops, bool verbose) {
   Snap before;
   for (size_t k = 0; k < ops.size(); k++) {
     bool last = k + 1 == ops.size();
-    if (last || verbose) { Snap tmp; snap_real(cache, &tmp); before = tmp; }
+    if (last) snap_real(cache, &before);
     int token = (int)k + 1;
     Ret rr = apply_real(cache, ops[k], token);
     bool open = false;
     Ret mr = ref.apply(ops[k], token, rr.ret, &open);
-    if (verbose) {
-      Snap s; const char* inv = snap_real(cache, &s);
-      std::printf("%-6s -> impl %-14s model %-14s | impl: %s%s%s\n       %*s model: %s\n", ops[k].str().c_str(), rr.str().c_str(),
-                  mr.str().c_str(), s.str().c_str(), inv ? "  INVARIANT: " : "", inv ? inv : "", 33, "", snap_ref(ref).str().c_str());
-    }
     if (!last && !verbose) continue;
     Snap s;
     const char* inv = snap_real(cache, &s);
     Snap ms = snap_ref(ref);
+    if (verbose) {
+      std::printf("%-6s -> impl %-14s model %-14s | impl:  %s%s%s\n%48s model: %s\n", ops[k].str().c_str(), rr.str().c_str(),
+                  mr.str().c_str(), s.str().c_str(), inv ? "  INVARIANT: " : "", inv ? inv : "", "|", ms.str().c_str());
+    }
     const char* rule = nullptr;
     if (inv) rule = inv;
     else if (!(rr == mr)) {
@@ -540,14 +534,13 @@ StepResult run_history(const std::vector<Op>& ops, bool verbose) {
                    "; impl {" + s.str() + "} model {" + ms.str() + "}";
     }
     if (last) {
-      out.real = s;
       out.key = canon(s);
       out.changed = canon(before) != out.key;
       out.open_case = open;
-      long evicted = 0;
-      for (int i = 0; i < kIds; i++) if (before.a[i].present && !s.a[i].present) evicted++;
+      long dropped = 0;
+      for (int i = 0; i < kIds; i++) if (before.a[i].present && !s.a[i].present) dropped++;
       char b[64];
-      std::snprintf(b, sizeof b, "%c:ret%ld:calls%d:dropped%ld:dsize%+ld", ops[k].str()[0], rr.ret, rr.ncalls, evicted, s.size - before.size);
+      std::snprintf(b, sizeof b, "%c:ret%ld:calls%d:dropped%ld:dsize%+ld", ops[k].str()[0], rr.ret, rr.ncalls, dropped, s.size - before.size);
       out.outcome = b;
     }
   }
@@ -556,7 +549,15 @@ StepResult run_history(const std::vector<Op>& ops, bool verbose) {
 
 struct Node { std::array<uint8_t, 8> h; };
 
+struct Local {
+  std::vector<std::pair<uint64_t, Node>> kids;
+  long transitions = 0, changed = 0, open_cases = 0;
+  std::set<std::string> outcomes;
+  std::map<std::string, std::pair<std::string, std::string>> failures;
+};
+
 int cmd_bfs(int depth, int nthreads, long cap_states) {
+  if (depth > 8) depth = 8;
   const std::vector<Op> alpha = sequential_alphabet();
   const int A = (int)alpha.size();
   std::unordered_set<uint64_t> seen;
@@ -570,12 +571,6 @@ int cmd_bfs(int depth, int nthreads, long cap_states) {
   bool capped = false;
   std::vector<std::string> samples;
   for (int d = 1; d <= depth && !frontier.empty(); d++) {
-    struct Local {
-      std::vector<std::pair<uint64_t, Node>> kids;
-      long transitions = 0, changed = 0, open_cases = 0;
-      std::set<std::string> outcomes;
-      std::map<std::string, std::pair<std::string, std::string>> failures;
-    };
     int nt = std::max(1, std::min<int>(nthreads, (int)frontier.size()));
     std::vector<Local> loc(nt);
     auto work = [&](int t) {
@@ -664,8 +659,8 @@ bool parse_scenario(const std::string& s, Scenario* sc) {
 // reference model returns exactly the recorded values and ends in exactly the observed final state?
 bool linearizable(const Ref& start, const Scenario& sc, const std::vector<Ret> got[2], const Snap& final_real, std::string* tried) {
   size_t n0 = sc.t[0].size(), n1 = sc.t[1].size();
-  // enumerate interleavings as bitmasks with n0 zeros (thread 0) and n1 ones
   size_t n = n0 + n1;
+  // interleavings as bitmasks with n1 ones (thread B) among n positions
   for (unsigned mask = 0; mask < (1u << n); mask++) {
     if ((size_t)__builtin_popcount(mask) != n1) continue;
     Ref r = start;
@@ -675,7 +670,7 @@ bool linearizable(const Ref& start, const Scenario& sc, const std::vector<Ret> g
     for (size_t k = 0; k < n && ok; k++) {
       int t = (mask >> k) & 1;
       const Op& o = sc.t[t][i[t]];
-      Ret want = got[t][i[t]];
+      const Ret& want = got[t][i[t]];
       Ret mr = r.apply(o, 100 * (t + 1) + (int)i[t], want.ret);
       if (o.kind == HAS) mr.ts.clear();   // the timestamp pointer is not dereferenced concurrently
       order += (order.empty() ? "" : " ") + std::string(t ? "B:" : "A:") + o.str() + "=" + mr.str();
@@ -715,7 +710,7 @@ void body() {
   const char* inv = snap_real(cache, &fin);
   vsched::log_event("final", (long long)canon(fin), 0);
   if (inv) {
-    std::string m = std::string("cache (concurrent): ") + inv + "; final {" + fin.str() + "}";
+    std::string m = std::string("cache: ") + inv + "; (concurrent) final {" + fin.str() + "}";
     vsched::fail(m.c_str());
   }
   std::string tried;
@@ -728,22 +723,19 @@ void body() {
   }
 }
 
-int cmd_explore(int argc, char** argv) {
+int cmd_explore(char** argv) {
   vsched::Options opt;
   opt.max_preemptions = std::atoi(argv[2]);
   opt.max_executions = std::atol(argv[3]);
-  int rc = 0;
-  for (int i = 4; i < argc; i++) {
-    g_sc = Scenario();
-    if (!parse_scenario(argv[i], &g_sc)) { std::fprintf(stderr, "bad scenario %s\n", argv[i]); return 2; }
-    vsched::Result r = vsched::explore(body, opt);
-    std::printf("SCENARIO\t%s\t%s\n", argv[i], vsched::result_json(r).c_str());
-    std::fflush(stdout);
-    if (r.failures) rc = 1;
-  }
-  return rc;
+  opt.shard = std::atoi(argv[4]);
+  opt.nshards = std::max(1, std::atoi(argv[5]));
+  g_sc = Scenario();
+  if (!parse_scenario(argv[6], &g_sc)) { std::fprintf(stderr, "bad scenario %s\n", argv[6]); return 2; }
+  vsched::Result r = vsched::explore(body, opt);
+  std::printf("SCENARIO\t%s\t%s\n", argv[6], vsched::result_json(r).c_str());
+  return r.failures ? 1 : 0;
 }
-#endif
+#endif  // E3
 
 #if defined(C38_TSAN)
 int cmd_free(int argc, char** argv) {
@@ -781,7 +773,7 @@ int cmd_free(int argc, char** argv) {
   std::printf("FREESTATS %ld %ld\n", runs, bad);
   return 0;
 }
-#endif
+#endif  // companion
 
 }  // namespace
 
@@ -789,7 +781,7 @@ int main(int argc, char** argv) {
   if (argc < 2) return 2;
   std::string mode = argv[1];
 #if defined(C38_SCHED)
-  if (mode == "explore" && argc >= 5) return cmd_explore(argc, argv);
+  if (mode == "explore" && argc >= 7) return cmd_explore(argv);
   if (mode == "replaysched" && argc >= 3) {
     if (!parse_scenario(argv[2], &g_sc)) return 2;
     vsched::Options opt;
